@@ -38,7 +38,7 @@ def find_inertia(rm, rp):
 
 def check(model, rep):
     from checks.solver_common import absorb_arith, TIME_ARITH, EULER_ARITH, KIN_ARITH, TORQUE_ARITH
-    absorb_arith(model, rep, 'C03.dep.arith', EULER_ARITH + TIME_ARITH)
+    absorb_arith(model, rep, 'C03.dep.arith', EULER_ARITH + TIME_ARITH, solver_log=True)
     rep.explain('C03: on the solver IR: the inertia loop is recognised by its loop-carried quantity; its initial value, '
                 'recurrence term, index set {1..n-1} ascending and position before the first instant on every run path are '
                 'compared with the documented reduction; the acceleration of E[n-1] must be net torque / that folded inertia, '
